@@ -32,14 +32,33 @@ pub fn bool_const(ctx: &Ctx, token: Token) -> BoolConst {
 pub type StrConst = ValSpan<String>;
 pub fn str_const(ctx: &Ctx, token: Token) -> StrConst {
     StrConst::new(
-        token
-            .value[1..token.value.len() - 1]
-            .replace(r#"\'"#, r#"'"#)
-            .replace(r#"\\"#, r#"\"#)
-            .replace(r#"\n"#, "\n")
-            .replace(r#"\t"#, "\t"),
+        unescape(&token.value[1..token.value.len() - 1]),
         Some(ctx.span()),
     )
+}
+/// Decodes `\'`, `\\`, `\n` and `\t` in a single left-to-right pass. Other
+/// characters after a backslash are kept together with the backslash.
+fn unescape(s: &str) -> String {
+    let mut out = String::with_capacity(s.len());
+    let mut chars = s.chars();
+    while let Some(c) = chars.next() {
+        if c != '\\' {
+            out.push(c);
+            continue;
+        }
+        match chars.next() {
+            Some('\'') => out.push('\''),
+            Some('\\') => out.push('\\'),
+            Some('n') => out.push('\n'),
+            Some('t') => out.push('\t'),
+            Some(other) => {
+                out.push('\\');
+                out.push(other);
+            }
+            None => out.push('\\'),
+        }
+    }
+    out
 }
 pub type Annotation = ValSpan<String>;
 pub fn annotation(ctx: &Ctx, token: Token) -> Annotation {
